@@ -169,6 +169,7 @@ func specCartCovered(rules []portRangeTernaryCartesianProduct, sp, dp uint16) bo
 //@   loop 1 invariant C17.portmask.inv.inside: port|^mask <= end
 
 //@ func CreatePortRangeCartesianProduct(src portRange, dst portRange) (rules []portRangeTernaryCartesianProduct, err error)
+//@   deadreturns 3, 5, 6, 7
 //@   logical sp uint16
 //@   logical dp uint16
 //@   ensures C17.cart.refuse: (err != nil) <==> (src.isRangeMatch() && dst.isRangeMatch() || src.isRangeMatch() && src.Width() > 100 || dst.isRangeMatch() && dst.Width() > 100)
